@@ -176,6 +176,11 @@ func (h *FBDNSDB) ServeDNSWithRCODE(ctx context.Context, w dns.ResponseWriter, r
 
 	// Check if this is a supported edns version
 	if a, err := edns.Version(r); err != nil { // Wrong EDNS version, return at once.
+		// coredns builds this reply without a question section, but clients match
+		// replies on it: echo the question like SetReply does for every other reply.
+		if len(r.Question) > 0 {
+			a.Question = []dns.Question{r.Question[0]}
+		}
 		return h.writeAndLog(state, a, ecs)
 	}
 
